@@ -1,5 +1,8 @@
 /-
 C09, part `aff`: the pairs returned by the affine aligners (property theorems only).
+`nwAlign`, `swAlign`, `fitAlign` are the model of the code after the repairs of K5 (layer-aware
+traceback), K1 (`up ↔ left` transitions in fill and traceback) and K3 (FittedAffine starts its
+traceback in the best layer of its end cell).
 -/
 import Biogo.Model.AlignAff
 import Biogo.Spec.AffPairs
@@ -179,9 +182,10 @@ theorem pair_scores_swAffine_needs_nonpositive_gaps :
 
 /-- "each pair's reported score equals the score recomputed from the letters, matrix and gap
     parameters" — **`FittedAffine`**, for all matrices, gap-open values and non-empty
-    sequences, the leading query gap (fix K2b) included.  The loop can only stop inside a
-    block: row 0 holds values only in the `left` layer, the free-prefix column 0 only in the
-    `up` layer (`Proofs/FitFaith`). -/
+    sequences, the leading query gap (fix K2b) and a trailing gap (the traceback may start in a
+    gap layer since the repair of K3) included.  The loop can only stop inside a block or in a
+    gap run that has just been charged its `gapOpen`: row 0 holds values only in the `left`
+    layer, the free-prefix column 0 only in the `up` layer (`Proofs/FitFaith`). -/
 theorem pair_scores_faithful_fittedAffine (S : Matrix) (gapOpen : Int) (r q : List Nat) (hr : r ≠ [])
     (hq : q ≠ []) (ps : List Pair) (h : fitAlign S gapOpen r q = .ok ps) :
     faithful S gapOpen r q ps = true :=
@@ -196,12 +200,13 @@ example : fitAlign (sc [[0, -1, -1], [-1, 2, -1], [-1, -1, 2]]) (-1) [1, 1] [2, 
 /-- The statement that held before the repair, kept for either switch: whenever the traceback
     (layer-aware, `aware = true`, or the layer-blind one it replaced, `aware = false`) only
     takes `case`s that belong to its current layer (the ghost flag of the model stays `false`),
-    the pair scores are the recomputed ones.  (It was `_partial` while the code had the
-    layer-blind switch; `pair_scores_faithful` is now the full statement.) -/
-theorem pair_scores_faithful_partial (aware : Bool) (S : Matrix) (gapOpen : Int) (r q : List Nat)
-    (hr : r ≠ []) (hq : q ≠ []) (ps : List Pair) (h : nwAlignT aware S gapOpen r q = .ok (ps, false)) :
+    the pair scores are the recomputed ones — for the fill of the code (`cross = true`) and for
+    the fill before the repair of K1 (`cross = false`).  (It was `_partial` while the code had
+    the layer-blind switch; `pair_scores_faithful` is now the full statement.) -/
+theorem pair_scores_faithful_partial (aware cross : Bool) (S : Matrix) (gapOpen : Int) (r q : List Nat)
+    (hr : r ≠ []) (hq : q ≠ []) (ps : List Pair) (h : nwAlignT aware cross S gapOpen r q = .ok (ps, false)) :
     faithful S gapOpen r q ps = true :=
-  Biogo.Proofs.NWFaith.nwAlignT_faithful aware S gapOpen r q hr hq ps h
+  Biogo.Proofs.NWFaith.nwAlignT_faithful aware cross S gapOpen r q hr hq ps h
 
 /-- non-vacuity: a layer-blind traceback with a gap and no tie -/
 example : legacyPairs .nw (sc [[0, -1, -1], [-1, 1, -1], [-1, -1, 1]]) (-2) [1, 2, 1] [1, 1] =
@@ -215,13 +220,15 @@ def tieM : List (List Int) :=
    [-1, -10, -10, -10, -10]]
 
 /-- **Why the repair was needed** (K5, fixed): the layer-blind switch (`legacyPairs`, the
-    traceback as it was before the repair) violates "each pair's reported score equals the score
-    recomputed from the letters, matrix and gap parameters".  With all letter pairs −10, gap
-    letters −1, gap-open −1, `r = aa`, `q = aaa` its last pair (gap in the reference against
-    query `[2,3)`) is reported with −1 (no gap-open) although it is a gap of its own; recomputed
-    −2.  It compared the value of the `up` layer with the `left`-extension candidate and took it.
-    On the same input the repaired traceback (`nwAlign`) returns faithful pairs with the same
-    total. -/
+    traceback as it was before the repair, on the fill of the code) violates "each pair's
+    reported score equals the score recomputed from the letters, matrix and gap parameters".
+    With all letter pairs −10, gap letters −1, gap-open −1, `r = a`, `q = aa` its last pair (gap
+    in the reference against query `[1,2)`) is reported with −1 (no gap-open) although it is a
+    gap of its own; recomputed −2.  It compared the value of the `up` layer with the
+    `left`-extension candidate and took it.  On the same input the repaired traceback
+    (`nwAlign`) returns faithful pairs with the same total.  (Before the repair of K1 the
+    witness was `aa` / `aaa`, still in `corpus/C09.txt`; with the `up ↔ left` transitions that
+    input has another optimum.) -/
 theorem legacy_pair_scores_not_faithful :
     ∃ (M : List (List Int)) (gapOpen : Int) (r q : List Nat) (ps ps' : List Pair),
       gapOpen ≤ 0 ∧ (∀ x, x < 5 → sc M x 0 ≤ 0 ∧ sc M 0 x ≤ 0) ∧
@@ -229,9 +236,9 @@ theorem legacy_pair_scores_not_faithful :
       faithful (sc M) gapOpen r q ps = false ∧ tieSwitched .nw (sc M) gapOpen r q = true ∧
       nwAlign (sc M) gapOpen r q = .ok ps' ∧ faithful (sc M) gapOpen r q ps' = true ∧
       total ps' = total ps :=
-  ⟨tieM, -1, [1, 1], [1, 1, 1],
-    [⟨0, 1, 0, 1, -10⟩, ⟨1, 1, 1, 2, -2⟩, ⟨1, 2, 2, 2, -2⟩, ⟨2, 2, 2, 3, -1⟩],
-    [⟨0, 0, 0, 2, -3⟩, ⟨0, 1, 2, 3, -10⟩, ⟨1, 2, 3, 3, -2⟩],
+  ⟨tieM, -1, [1], [1, 1],
+    [⟨0, 0, 0, 1, -2⟩, ⟨0, 1, 1, 1, -2⟩, ⟨1, 1, 1, 2, -1⟩],
+    [⟨0, 0, 0, 2, -3⟩, ⟨0, 1, 2, 2, -2⟩],
     by decide, by decide, by decide +kernel, by decide, by decide +kernel, by decide +kernel,
     by decide +kernel, by decide +kernel, by decide⟩
 
